@@ -59,11 +59,20 @@ def unknown_name(diag):
     return None if not m else common.unhex(m.group(1))
 
 
-def gen_case(rng, g):
+P_BOUNDARY = 0.10
+
+
+def gen_case(rng, g, big=False):
     mode = rng.choice(cc.MODES)
     ents, st = g.entries(mode, popt=rng.choice([0.1, 0.35, 0.35, 0.7]))
     label = 'valid'
-    if rng.random() < 0.04:
+    bnd = None
+    if rng.random() < P_BOUNDARY:
+        # one size / count / integer / name-family / file-shape boundary class (conf_gen.Gen.boundary)
+        # (8 KiB strings cost the model 2-3 s per case: one boundary case in seven may have them in the quick tier)
+        bnd = g.boundary(mode, ents, st, big=big, cap=None if (big or rng.random() < 0.15) else 4097)
+        label, text = ('boundary' if bnd['valid'] else 'boundary-error'), bnd['text']
+    elif rng.random() < 0.04:
         label, text = g.reentry(mode, ents, st)
     elif rng.random() < 0.45:
         label, text = g.corrupt(mode, ents, st)
@@ -80,6 +89,14 @@ def gen_case(rng, g):
     case = {'mode': mode, 'kind': label, 'text': text.hex(), 'vars': [v.hex() for v in vars_],
             'execdir': None if execdir is None else execdir.hex(),
             'stdin': g.template(mode, st).hex()}
+    if bnd is not None:
+        case['bclass'] = bnd['label']
+        if 'vars' in bnd:
+            case['vars'] = [v.hex() for v in bnd['vars']]
+        if 'stdin' in bnd:
+            case['stdin'] = bnd['stdin'].hex()
+        if 'execdir' in bnd:
+            case['execdir'] = bnd['execdir'].hex()
     return case
 
 
@@ -120,7 +137,7 @@ def evaluate(ctx, cases, res, world=None, drv=None):
     if world is None:
         impl = ctx.build_impl()
         world = cc.World(ctx, impl)
-    drv = drv or cc.build_driver(ctx, 'cf', withz=True)
+    drv = drv or cc.unlimited_stack(ctx, cc.build_driver(ctx, 'cf', withz=True))
     with ThreadPoolExecutor(16) as ex:
         runs = list(ex.map(lambda c: attempts_for(world, c), cases))
     questions = []
@@ -189,6 +206,9 @@ def evaluate(ctx, cases, res, world=None, drv=None):
         outcome = 'accept' if accepted else 'reject:' + (first['diags'][0].split('|', 2)[2].split(':')[0] if first['diags'] else 'silent')
         res.count('%s %s' % (case['mode'], 'accept' if accepted else 'reject'))
         res.count('kind %s -> %s' % (case['kind'], outcome))
+        if case.get('bclass'):
+            res.count('class: ' + case['bclass'])
+            res.count('class %s -> %s' % (case['bclass'].split()[0], outcome))
         if case['kind'] != 'valid' or len(bytes.fromhex(case['text'])) > 60:
             res.nontrivial.add(hashlib.sha1((case['mode'] + case['text'] + repr(case.get('vars'))).encode()).hexdigest())
         oracle(world, case, conf, atts, dropped, accepted, res, sfirst[ci], sfinal[ci], sdropped[ci])
@@ -349,7 +369,7 @@ def run(ctx, n=None):
                 'corruption or a configuration of more than 60 bytes; distinct by content hash')
     n = n or ctx.budget(700, 30000)
     g = conf_gen.Gen(ctx.rng)
-    cases = load_corpus() + [gen_case(ctx.rng, g) for _ in range(n)]
+    cases = load_corpus() + [gen_case(ctx.rng, g, big=(ctx.tier == 'thorough')) for _ in range(n)]
     res.samples = [{k: (bytes.fromhex(v).decode('latin1') if k in ('text',) else v) for k, v in c.items() if k != 'stdin'} for c in cases[:4]]
     world = None
     drv = None
